@@ -87,8 +87,18 @@ inductive Err
   deriving DecidableEq, Repr
 
 /-- one entry of `checker.paths` / `checker.fileinfo`: path components below the payload root
-    (`[]` = the root itself), recorded length, `pieces root` (`none`: key absent or `None`) -/
+    (`[]` = the root itself), recorded length, and a third component that is
+    * for the v2 part (file tree): the `pieces root` (`none`: key absent or `None`);
+    * for an entry of a v1 `files` list, which has no pieces root: `padMark` when
+      `fileinfo[i]["pad"]` is true (BEP 47 padding entry: its `attr` contains `p`), `none` for an
+      ordinary file.  Only the v1 branch reads it that way (`isPadRec`). -/
 abbrev FileRec := List Bytes × Nat × Option Bytes
+
+/-- third component of a v1 padding entry (the attribute letter `p`) -/
+def padMark : Option Bytes := some [112]
+
+/-- `fileinfo[i].get("pad")` of a v1 entry -/
+def isPadRec (r : FileRec) : Bool := r.2.2.isSome
 
 /-- (instance search runs out of size on the nested product otherwise) -/
 instance instDecEqFileRec : DecidableEq FileRec := inferInstance
@@ -138,6 +148,22 @@ def strs : List BVal → Except Err (List Bytes)
     let r ← strs vs
     .ok (s :: r)
 
+/-- key `attr` (BEP 47) -/
+def kAttr : Bytes := [97, 116, 116, 114]  -- "attr"
+
+/-- `"p" in item.get("attr", "")`: substring test on a string (`xp`, `ph` count; `x`, `h`, the
+    empty string and a missing `attr` do not); membership for a list / dictionary -/
+def padAttr (item : BVal) : Except Err Bool :=
+  match item with
+  | .dict d =>
+    match dictGet d kAttr with
+    | none => .ok false
+    | some (.str a) => .ok (a.contains 112)
+    | some (.list l) => .ok (l.any fun x => x == .str [112])
+    | some (.dict kv) => .ok (dictHas kv [112])
+    | some (.int _) => .error .typeError
+  | _ => .error .typeError
+
 def totalOf (recs : List FileRec) : Nat := (recs.map (·.2.1)).sum
 
 end RF
@@ -146,16 +172,22 @@ open RF
 
 namespace Impl
 
-/-- `{item["path"][0] for item in info["files"] if item["path"]}` in `_is_parent` (as a list;
-    repetitions are removed when counting) -/
+/-- `{item["path"][0] for item in info["files"] if item["path"] and "p" not in
+    item.get("attr", "")}` in `_is_parent` (as a list; repetitions are removed when counting):
+    padding entries do not count -/
 def filesTops : List BVal → Except Err (List Bytes)
   | [] => .ok []
   | item :: rest => do
     match ← sub item RF.kPath with
-    | .list [] => filesTops rest
-    | .list (.str s :: _) =>
-      let t ← filesTops rest
-      .ok (s :: t)
+    | .list [] => filesTops rest                          -- `if item["path"]`
+    | .list (x :: _) =>
+      if ← padAttr item then filesTops rest               -- `and "p" not in item.get("attr", "")`
+      else
+        match x with
+        | .str s =>
+          let t ← filesTops rest
+          .ok (s :: t)
+        | _ => .error .typeError
     | _ => .error .typeError
 
 /-- `sum(os.path.exists(nd / top) for top in tops)` for the SET `tops` -/
@@ -163,7 +195,7 @@ def countTops (nd : Node) (tops : List Bytes) : Nat :=
   (tops.eraseDups.filter fun t => (child nd t).isSome).length
 
 /-- the described top-level entries as `_is_parent` collects them (`tops`): the first path
-    components of the `files` entries (v1 and hybrid; padding entries included), else the keys
+    components of the `files` entries (v1 and hybrid; padding entries excluded), else the keys
     of the file tree; `none` for a single-file torrent (`length`, or the tree `{name: file}`). -/
 def topsOf (info : Dict) (name : Bytes) : Except Err (Option (List Bytes)) :=
   match dictGet info K.files with
@@ -277,8 +309,8 @@ def walkFileTree (tree : BVal) (partials : List Bytes) : Except Err (List FileRe
   | .dict kvs => walkItems partials kvs
   | _ => .error .typeError
 
-/-- the `for i, item in enumerate(self.info["files"])` loop (v1): every entry, padding entries
-    (`attr: p`) included, in list order -/
+/-- the `for i, item in enumerate(self.info["files"])` loop (v1): every entry in list order;
+    a padding entry (`attr` contains `p`) is marked (`"pad": True`) -/
 def v1Files : List BVal → Except Err (List FileRec)
   | [] => .ok []
   | item :: rest => do
@@ -289,8 +321,9 @@ def v1Files : List BVal → Except Err (List FileRec)
       let comps ← strs l
       if comps = [] then .error .typeError            -- `os.path.join()` without arguments
       else
+        let pad ← padAttr item                          -- `"pad": "p" in item.get("attr", "")`
         let t ← v1Files rest
-        .ok ((comps, len, none) :: t)
+        .ok ((comps, len, if pad then padMark else none) :: t)
     | _ => .error .typeError
 
 /-- the head of `check_paths`: `info["length"]` after the repair for v2 single-file torrents
@@ -347,11 +380,12 @@ def content (root : Node) (path : List Bytes) : Except Err (Option Bytes) :=
   | some (.file d) => .ok (some d)
   | some (.dir _) => .error .isADirectory
 
-/-- the entries `FeedChecker` works on -/
+/-- the entries `FeedChecker` works on: `os.path.exists(path) and not fileinfo[i].get("pad")` —
+    a padding entry is never looked up, it is zeros whatever sits at its path -/
 def rcV1Entries (root : Node) : List FileRec → Except Err (List (Nat × Option Bytes))
   | [] => .ok []
   | r :: rs => do
-    let c ← content root r.1
+    let c ← if isPadRec r then .ok none else content root r.1
     let t ← rcV1Entries root rs
     .ok ((r.2.1, c) :: t)
 
@@ -491,13 +525,23 @@ def entriesFiles (pre : List Bytes) : List (Bytes × MTree) → List FileRec
   | (k, t) :: r => treeFiles (pre ++ [k]) t ++ entriesFiles pre r
 end
 
-/-- one entry of a BEP 3 `files` list -/
+/-- BEP 47: an entry whose `attr` string contains the letter `p` is a padding entry: it stands
+    for zero bytes and is not a file of the payload.  `none`: `attr` is not a string. -/
+def v1Pad (item : BVal) : Option Bool :=
+  match item.get? RF.kAttr with
+  | none => some false
+  | some (.str a) => some (a.contains 112)
+  | some _ => none
+
+/-- one entry of a BEP 3 `files` list; a padding entry is marked with `padMark` -/
 def v1Item (item : BVal) : Option FileRec :=
   match item.get? K.length, item.get? RF.kPath with
   | some (.int i), some (.list l) =>
-    match strs l with
-    | .ok comps => if 0 ≤ i ∧ comps ≠ [] ∧ comps.all plainName then some (comps, i.toNat, none) else none
-    | .error _ => none
+    match strs l, v1Pad item with
+    | .ok comps, some pad =>
+      if 0 ≤ i ∧ comps ≠ [] ∧ comps.all plainName
+      then some (comps, i.toNat, if pad then padMark else none) else none
+    | _, _ => none
   | _, _ => none
 
 def v1Items : List BVal → Option (List FileRec)
@@ -515,7 +559,8 @@ def hasV2 (info : Dict) : Bool := dictHas info K.metaVersion
     root.  `none`: not well-formed.
 
     v1 (BEP 3): exactly one of `length` (single file) and `files` (directory; every entry in
-    list order — a padding entry is an entry like any other).
+    list order; a BEP 47 padding entry — `attr` contains `p` — is marked `padMark`: it
+    contributes its length in zero bytes to the stream and is never a file on disk).
     v2 and hybrid (BEP 52; a hybrid is read through its v2 part): the leaves of `file tree`.
     BEP 52 does not mark a single-file torrent: the tree `{name: file}` is the file `name`, or a
     directory `name` holding a file `name`.  It is the single file when the v1 part says so
@@ -554,6 +599,11 @@ def fileBytes (disk : Disk) (path : List Bytes) : Option Bytes :=
   match lookup disk path with
   | some (.file d) => some d
   | _ => none
+
+/-- what is on disk of a v1 entry: a padding entry is never on disk (it is zeros, whatever
+    sits at its path); any other entry is the regular file at its path, if there is one -/
+def v1Disk (disk : Disk) (r : FileRec) : Option Bytes :=
+  if isPadRec r then none else fileBytes disk r.1
 
 /-- what a recheck has to do: slice one stream (v1) or go file by file (v2 / hybrid) -/
 inductive Plan
@@ -597,7 +647,7 @@ def plan (B : Nat) (mf : BVal) (disk : Disk) : Option Plan :=
         else
           match dictGet info K.pieces with
           | some (.str recorded) =>
-            some (.v1 p.toNat recorded (recs.map fun r => (r.2.1, fileBytes disk r.1)))
+            some (.v1 p.toNat recorded (recs.map fun r => (r.2.1, v1Disk disk r)))
           | _ => none
       else none
     | _ => none
@@ -634,10 +684,14 @@ def Plan.total : Plan → Nat
   | .v1 _ _ entries => (entries.map (·.1)).sum
   | .v2 _ files => (files.map (·.1)).sum
 
-/-- no directory sits where the metafile describes a file (`open` would raise) -/
+/-- a padding entry of the v1 `files` list of a (pure) v1 metafile -/
+def isPad (mf : BVal) (r : FileRec) : Bool := !hasV2 (Impl.infoOf mf) && isPadRec r
+
+/-- no directory sits where the metafile describes a file (`open` would raise); the path of a
+    v1 padding entry is never opened and may be anything -/
 def NoDirAtFile (mf : BVal) (disk : Disk) : Prop :=
   ∀ recs, describedFiles mf (isFile disk) = some recs →
-    ∀ r ∈ recs, ∀ es, lookup disk r.1 ≠ some (.dir es)
+    ∀ r ∈ recs, isPad mf r = false → ∀ es, lookup disk r.1 ≠ some (.dir es)
 
 /-- a v2 / hybrid metafile that describes one single EMPTY file.  BEP 52 gives an empty file no
     `pieces root`; `check_paths` reads `["pieces root"]` of a single file unconditionally and
